@@ -1,6 +1,6 @@
 from props import tu, run
 
-_PARTS = 7
+_PARTS = 8
 
 CFG = dict(
     level="exploration",
@@ -38,12 +38,19 @@ CFG = dict(
                  "sub_histogram(lo,hi) is checked over one selected axis (tuple comparison is lexicographic for more)",
                  "std-container fillers: unsigned 8/16-bit channels only, as the header requires; the gray conversion is GIL's own (judged by C09)",
                  "histogram_equalization / histogram_matching are not exercised (not part of the statement)"],
-    tus=[tu("c19_asan%d" % k, "harness/c19_histogram.cpp", "asan", extra=["-DC19_PART=%d" % k]) for k in range(_PARTS)],
-    runs=[run("c19_asan%d" % k, shards=[4, 4, 4, 4, 8, 8, 8][k],
-              min_cases={"quick": [196, 98, 98, 98, 196, 1024, 200][k], "thorough": [400, 200, 200, 200, 400, 1024, 1100][k]}) for k in range(_PARTS)],
+    # the TUs that exercise the std::vector filler are compiled as a whole with -D_GLIBCXX_SANITIZE_VECTOR, so that ASan also
+    # reports writes into reserved-but-unsized vector capacity
+    tus=[tu("c19_asan%d" % k, "harness/c19_histogram.cpp", "asan",
+            extra=["-DC19_PART=%d" % k] + (["-D_GLIBCXX_SANITIZE_VECTOR"] if k in (4, 7) else [])) for k in range(_PARTS)],
+    runs=[run("c19_asan%d" % k, shards=[4, 4, 4, 4, 8, 8, 8, 8][k],
+              min_cases={"quick": [196, 98, 98, 98, 196, 1024, 200, 128][k], "thorough": [400, 200, 200, 200, 400, 1024, 1100, 512][k]}) for k in range(_PARTS)],
     require_obs=["fill.dense.accumulate*", "fill.dense.replace*", "fill.sparse.accumulate*", "fill.sparse.replace.mask.limits",
                  "fill.dense-noop.*", "std.accumulate", "std.replace",
                  "content.neg-nonmultiple.bw-pow2", "content.neg-nonmultiple.bw-other",
+                 "std-seq.vector.accumulate.empty.d8", "std-seq.vector.accumulate.empty.d16", "std-seq.vector.accumulate.shorter.d8",
+                 "std-seq.vector.accumulate.shorter.d16", "std-seq.vector.accumulate.exact.d*", "std-seq.vector.accumulate.longer.d8",
+                 "std-seq.vector.replace.shorter.d16", "std-seq.vector.replace.longer.d8", "std-seq.map.accumulate.empty.d*",
+                 "std-seq.map.accumulate.filled.d*", "std-seq.map.replace.filled.d*", "std-seq.array.accumulate.d8", "std-seq.array.accumulate.d16",
                  "binning.8bit.signed.bw>=41", "binning.8bit.unsigned.bw>=41", "binning.16bit.signed.bw>=41", "binning.16bit.unsigned.bw>=41",
                  "post.normalized.d1.fractional", "post.normalized.d2.fractional", "post.normalized.d3.fractional", "post.normalized.d4.fractional",
                  "cumulative.corner.normalized.d1", "cumulative.corner.normalized.d2", "cumulative.corner.normalized.d3", "cumulative.corner.normalized.d4"],
